@@ -7,14 +7,15 @@ SEEDS = ["SIR", "BD", "ONE", "MIX", "SEIRBD", "UNUSED"]
 def gather(tier, seed=0, slice_mod=6):
     """returns list of (name, def) and bookkeeping.  quick: everything within 1 edit of every
     seed, plus a 1/slice_mod slice (selected by VERIF_SEED) of the 2-edit neighbourhoods of SIR
-    and MIX and of the small-scope block; thorough: the complete neighbourhoods and block."""
+    and MIX and of the small-scope block; thorough: the complete 2-edit neighbourhoods of all six seeds and the complete block."""
     import zlib
     defs = {}
     nexec = 0
     if tier == "quick":
         plan = [(s, 1, None) for s in SEEDS] + [("SIR", 2, slice_mod), ("MIX", 2, slice_mod)]
     else:
-        plan = [("SIR", 3, None), ("MIX", 2, None), ("BD", 2, None), ("ONE", 2, None), ("UNUSED", 2, None), ("SEIRBD", 2, None)]
+        # (the 3-edit neighbourhood of SIR alone has 129 343 definitions: not feasible together with the variants)
+        plan = [("SIR", 2, None), ("MIX", 2, None), ("BD", 2, None), ("ONE", 2, None), ("UNUSED", 2, None), ("SEIRBD", 2, None)]
     for sname, bound, mod in plan:
         ov, _ = gen.seed(gen.seed_values(sname))
 
@@ -42,13 +43,13 @@ def run_family(run, leg):
         _, d = gen.seed(gen.seed_values(sname))
         cy.append(("cython:" + sname, d, run.seed, (leg,), "cython"))
     # the same definitions reached from a non-initial state (built without the last process, everything evaluated, last
-    # process added): every definition in the thorough tier, every fourth (selected by VERIF_SEED) in the quick tier
+    # process added): every third definition in the thorough tier, every fourth in the quick tier (selected by VERIF_SEED)
     from mc import build
     grow = [(n + "+grown", d, run.seed, (leg,), "grown") for k, (n, d) in enumerate(defs)
-            if build.can_grow(d) and (run.tier != "quick" or k % 4 == run.seed % 4)]
+            if build.can_grow(d) and k % (4 if run.tier == "quick" else 3) == run.seed % (4 if run.tier == "quick" else 3)]
     # ... and next to a live, fully evaluated model of the same mathematics declared in the opposite order
     tw = [(n + "+twin", d, run.seed, (leg,), "twin") for k, (n, d) in enumerate(defs)
-          if build.can_twin(d) and (run.tier != "quick" or k % 4 == (run.seed + 2) % 4)]
+          if build.can_twin(d) and k % (4 if run.tier == "quick" else 3) == (run.seed + 2) % (4 if run.tier == "quick" else 3)]
     jobs = jobs + grow + tw
     res = pool.pmap(e1.check_def, cy + jobs, chunksize=1)
     nd = 0
